@@ -67,7 +67,16 @@ def a1(chk, repo):
         vm = t.syms.get("vonmises")
         key = "FailureExact.compute %s" % sig_txt(r.sigma)
         if e is None or vm is None:
-            chk.undecided("A1", key, c.where, "expression not extracted", algebraic=True)
+            # the allowable used as divisor: it must be the yield stress of the surface dictionary itself
+            alw = None
+            for pa in m.phase_attrs.values():
+                for k_, v_ in pa.items():
+                    if k_ == "sigma":
+                        alw = v_
+            if alw is not None and not (alw.kind == "cfgval" and alw.cx and alw.cx.endswith("['yield']")):
+                chk.violation("A1", key, c.where, "the allowable self.sigma is not the surface's yield stress itself (it is a derived %s value%s): the exact failure is no longer stress / yield - 1 for every entry (strength factors are already applied by the stress component)" % (alw.kind, (" from " + alw.cx) if alw.cx else ""))
+            else:
+                chk.undecided("A1", key, c.where, "expression not extracted", algebraic=True)
             continue
         ys = [s for s in e.free_symbols if "yield" in s.name]
         if ys and sp.simplify(e - (vm / ys[0] - 1)) == 0:
